@@ -162,6 +162,11 @@ func runRegistryHistory(c *fw.Ctx, prop string, rules map[string]bool) {
 
 	nBlocks := r.Range(30, 50)
 	probes := 0
+	// a fifth of the histories move, at some block boundary, to a fresh chain initialised from an export
+	reimportAt := -1
+	if r.Chance(20) {
+		reimportAt = r.Range(8, nBlocks-5)
+	}
 	for b := 0; b < nBlocks && e.Halted == ""; b++ {
 		obs := e.Last
 		if obs == nil {
@@ -196,6 +201,9 @@ func runRegistryHistory(c *fw.Ctx, prop string, rules map[string]bool) {
 			probes++
 			c.Count("probe_blocks", 1)
 			continue
+		}
+		if b == reimportAt {
+			e.Reimport()
 		}
 		e.BeginBlock(time.Duration(r.Range(1, 7)) * time.Second)
 		ntx := r.Range(1, 5)
